@@ -8,6 +8,7 @@ import (
 	"strings"
 
 	"github.com/jhump/protoreflect/dynamic"
+	gpw "google.golang.org/protobuf/encoding/protowire"
 	"google.golang.org/protobuf/proto"
 	"google.golang.org/protobuf/reflect/protoreflect"
 	"google.golang.org/protobuf/types/dynamicpb"
@@ -534,6 +535,31 @@ func (v *Val) Short() string {
 	out := b.String()
 	if len(out) > 700 {
 		out = out[:700] + "..."
+	}
+	return out
+}
+
+// DescendingTop re-orders the records of an encoded message so that the fields come in DESCENDING number order
+// (the records of one field stay together and keep their relative order): as legal an encoding of the same message
+// as the ascending one (writers that range over a Go map, oneof members numbered below plain fields).
+func DescendingTop(b []byte) []byte {
+	type rec struct {
+		num gpw.Number
+		raw []byte
+	}
+	var recs []rec
+	for len(b) > 0 {
+		num, _, n := gpw.ConsumeField(b)
+		if n < 0 {
+			panic("pbref: DescendingTop on malformed bytes")
+		}
+		recs = append(recs, rec{num, b[:n]})
+		b = b[n:]
+	}
+	sort.SliceStable(recs, func(i, j int) bool { return recs[i].num > recs[j].num })
+	out := []byte{}
+	for _, r := range recs {
+		out = append(out, r.raw...)
 	}
 	return out
 }
